@@ -354,13 +354,13 @@ func c32JSON() *explore.Scenario {
 }
 
 func c32Scenarios(thorough bool) []*explore.Scenario {
-	return []*explore.Scenario{c32Dict(), c32JSON(), c32ReusedUnmarshaler()}
+	return []*explore.Scenario{c32Dict(), c32JSON(), c32ReusedUnmarshaler(), c32UnknownEntry()}
 }
 
 func init() {
 	register(&Prop{ID: "C32", Level: "exploration", Variant: "A", Scenarios: c32Scenarios,
 		Run: func(c *explore.Check, thorough bool) {
-			c.Rule = "every entry of every Dict*ValueIndexed table that has a Dict*NameIndexed sibling (pairs discovered from dicttls/*.go at check time): NameIndexed[ValueIndexed[v]] == v; every corpus ClientHello (all IDs, custom specs, spliced variants) that the documented JSON format can describe is rendered to JSON with the value-indexed tables, imported with UnmarshalJSON, applied and built, and compared (normalised: GREASE, per-connection parts masked) with the hello built from the raw-bytes import, once with the registry spelling of every extension name and, for hellos carrying extension 34, once with its RFC 9345 spelling (pinned in the harness, not read from the table); one caller-configured TLSExtensionsJSONUnmarshaler x 4 option sets x every sequence of <= 3 documents from a menu of 3 good and 3 refused ones: each step equals what a fresh unmarshaler with the same options makes of the document. distinct = table / hello"
+			c.Rule = "every entry of every Dict*ValueIndexed table that has a Dict*NameIndexed sibling (pairs discovered from dicttls/*.go at check time): NameIndexed[ValueIndexed[v]] == v; every corpus ClientHello (all IDs, custom specs, spliced variants) that the documented JSON format can describe is rendered to JSON with the value-indexed tables, imported with UnmarshalJSON, applied and built, and compared (normalised: GREASE, per-connection parts masked) with the hello built from the raw-bytes import, once with the registry spelling of every extension name and, for hellos carrying extension 34, once with its RFC 9345 spelling (pinned in the harness, not read from the table); one caller-configured TLSExtensionsJSONUnmarshaler x 4 option sets x every sequence of <= 3 documents from a menu of 3 good and 3 refused ones: each step equals what a fresh unmarshaler with the same options makes of the document; every describable corpus extension list x 4 option sets with one entry of an unknown name inserted first / in the middle / last: refused, or accepted with every other entry keeping its parameters. distinct = table / hello"
 			c.Assumptions = []string{"JSON renderer (mc/props/c32.go) written from the documented format; hellos with elements the format cannot describe (e.g. ECH GREASE) are counted as not representable, not judged"}
 			runAll(c, c32Scenarios(thorough), 0)
 			c.Gate(c.Total.Counters["dict_entries"] > 500, "non-vacuity: %d dict entries", c.Total.Counters["dict_entries"])
@@ -372,6 +372,89 @@ func init() {
 // what it makes of a document must not depend on the documents it saw (or refused) before. Every
 // sequence of <= 3 documents from a menu of good and refused ones x the 4 option sets, each step
 // compared with a fresh unmarshaler carrying the same options.
+// c32UnknownEntry: an extension list that contains one entry with a name the dictionary does not know.
+// Whatever the unmarshaler's options make of that entry — refuse the document, skip the entry, keep it
+// as a placeholder — every OTHER entry must come out with the parameters the document gives it.
+func c32UnknownEntry() *explore.Scenario {
+	describe := func(e tls.TLSExtension) string { return fmt.Sprintf("%T%+v", e, e) }
+	return &explore.Scenario{
+		Name: "json-list-with-one-unknown-name",
+		Run: func(x *explore.X) (r explore.Result) {
+			c32Once.Do(func() {
+				c31HOnce.Do(func() { c31H = c31Hellos() })
+				c32H = c31H
+			})
+			hc := c32H[x.Choose("hello", len(c32H))]
+			name, msg := hc[0].(string), hc[1].([]byte)
+			opt := x.Choose("options", 4)
+			where := x.Choose("position", 3) // first, middle, last
+			h, err := wire.CheckAll(msg)
+			if err != nil {
+				r.Obs = "invalid-source"
+				return
+			}
+			doc, ok, _ := renderJSON(h)
+			if !ok {
+				r.Obs = "not-json-representable"
+				return
+			}
+			var top struct {
+				Extensions []json.RawMessage `json:"extensions"`
+			}
+			if json.Unmarshal(doc, &top) != nil || len(top.Extensions) < 2 {
+				r.Obs = "too-few-extensions"
+				return
+			}
+			base, _ := json.Marshal(top.Extensions)
+			pos := []int{0, len(top.Extensions) / 2, len(top.Extensions)}[where]
+			var with []json.RawMessage
+			with = append(with, top.Extensions[:pos]...)
+			with = append(with, json.RawMessage(`{"name":"no_such_extension_name"}`))
+			with = append(with, top.Extensions[pos:]...)
+			edited, _ := json.Marshal(with)
+			mk := func() *tls.TLSExtensionsJSONUnmarshaler {
+				return &tls.TLSExtensionsJSONUnmarshaler{AllowUnknownExt: opt&1 != 0, UseRealPSK: opt&2 != 0}
+			}
+			u0, u1 := mk(), mk()
+			var e0, e1 error
+			if pm := catch(func() { e0 = u0.UnmarshalJSON(base); e1 = u1.UnmarshalJSON(edited) }); pm != "" {
+				r.Violate("C32|unknown-entry|panic", "%s: %s", name, truncStr(pm, 200))
+				return
+			}
+			if e0 != nil {
+				r.Obs = "base-list-refused"
+				return
+			}
+			r.Nontrivial = true
+			r.Class = fmt.Sprintf("%s|%d|%d", name, opt, where)
+			if e1 != nil {
+				r.Obs = "refused"
+				r.Count("unknown_entry_refused", 1)
+				return
+			}
+			want := map[string]int{}
+			var wantSeq []string
+			for _, e := range u0.Extensions() {
+				d := describe(e)
+				want[d]++
+				wantSeq = append(wantSeq, d)
+			}
+			var gotSeq []string
+			for _, e := range u1.Extensions() {
+				if d := describe(e); want[d] > 0 {
+					gotSeq = append(gotSeq, d)
+				}
+			}
+			if strings.Join(gotSeq, ";") != strings.Join(wantSeq, ";") {
+				r.Violate("C32|unknown-entry|other-entries-changed", "%s, options{AllowUnknownExt=%v UseRealPSK=%v}, unknown name inserted at %d of %d: the document was accepted, but its other entries no longer carry their parameters: %s", name, opt&1 != 0, opt&2 != 0, pos, len(top.Extensions), firstDiff(strings.Join(gotSeq, ";"), strings.Join(wantSeq, ";")))
+			}
+			r.Count("unknown_entry_accepted", 1)
+			r.Obs = "accepted"
+			return
+		},
+	}
+}
+
 func c32ReusedUnmarshaler() *explore.Scenario {
 	docs := []struct{ name, js string }{
 		{"sni+psk", `[{"name":"server_name"},{"name":"pre_shared_key","identities":[{"identity":[1,2,3],"obfuscated_ticket_age":7}],"binders":[[4,5,6]]}]`},
